@@ -537,10 +537,16 @@ def rule_exact_registry_lookups(repo: Repo, rep: Report, rule: str = "R2.10") ->
     collide - a primitive property `address` is then typed as the model `Address`."""
     n = 0
     for m in repo.modules.values():
+        ref_side_only = False
         if ".types.resolvers." not in "." + m.name + "." and ".core.loader.schemas." not in "." + m.name + ".":
-            continue
+            # the parser's `$ref` resolution is a lookup by name too (its registration side keys by the sanitised class name by design)
+            if not m.name.endswith("core.parsing.schema_parser"):
+                continue
+            ref_side_only = True
         REG = ("schemas", "parsed_schemas")
         for q, fn in m.functions.items():
+            if ref_side_only and "resolve_ref" not in q:
+                continue
             # a post-condition checker (only loops, tests, local bindings, `continue` and `raise`; returns nothing) resolves nothing
             kinds_ = {type(x) for x in ast.walk(fn.node) if isinstance(x, ast.stmt) and x is not fn.node}
             if ast.Raise in kinds_ and kinds_ <= {ast.For, ast.If, ast.Assign, ast.AnnAssign, ast.Continue, ast.Pass, ast.Raise, ast.Expr} and not any(
